@@ -76,6 +76,47 @@ def framerate_family(res, tier):
     res.coverage["framerate_family"] = metas
 
 
+def burst_family(res, tier):
+    """pause, then a burst of updates, many times over: every burst may cost one render at once but never two inside one
+    frame interval (a renderer that paints out of turn after a pause and again at the next tick doubles the rate)"""
+    from .. import program as P
+    scs, metas = [], []
+    for fps in (4, 5):
+        cycles = 8
+        script = [P.W("started"), P.W("idle"), P.DO("sleep", us=400000)]
+        for k in range(cycles):
+            # three updates 100 ms apart (inside one frame interval of >= 200 ms), then a pause of two frame intervals
+            script += [P.DO("send", msg=P.U(100 + 10 * k)), P.DO("sleep", us=100000), P.DO("send", msg=P.U(101 + 10 * k)), P.DO("sleep", us=100000),
+                       P.DO("send", msg=P.U(102 + 10 * k)), P.DO("sleep", us=int(2.2e6 / fps))]
+        script += [P.DO("send", msg=P.U(999)), P.W("idle"), P.DO("quit"), P.W("returned")]
+        scs.append(P.scenario(len(scs), script, opts={"fps": fps}, writes=True, parallel_ok=True, watchdog_ms=8000))
+        metas.append({"fps": fps, "cycles": cycles})
+    results, _ = P.run_scenarios("C19_burst", scs, timeout=600)
+    bad = []
+    for m, r in zip(metas, results):
+        if P.machinery_problem(r) or not r["run_returned"]:
+            bad.append((m, "scenario did not complete"))
+            continue
+        ev = r["events"]
+        t_a = next((e["t"] for e in ev if e["ev"] == "UpdateBegin" and e.get("key") == "u:100"), None)
+        t_b = next((e["t"] for e in ev if e["ev"] == "UpdateBegin" and e.get("key") == "u:999"), None)
+        if t_a is None or t_b is None:
+            bad.append((m, "markers missing"))
+            continue
+        frames = sorted(t for t, ln in r.get("writes", []) if t_a <= t <= t_b and ln > 6)
+        interval = 1e6 / m["fps"]
+        close = [(a, b) for a, b in zip(frames, frames[1:]) if b - a < 0.6 * interval]
+        m["frames"], m["pairs_closer_than_0.6_interval"] = len(frames), len(close)
+        if len(close) > 2:      # (a late tick next to a punctual one can happen once or twice on a loaded machine; eight cycles give eight)
+            bad.append((m, "%d pairs of frames were painted less than 0.6 frame intervals apart (fps %d, %d bursts after pauses): %s" %
+                        (len(close), m["fps"], m["cycles"], [(round((b - a) / 1000)) for a, b in close[:6]])))
+    res.oblige("Spec on real Programs: bursts of updates after pauses never get two renders inside one frame interval (%d programs, 8 bursts each)" % len(scs),
+               not bad, [b[1] for b in bad[:2]])
+    for m, what in bad[:1]:
+        res.violation("C19:frame-rate:burst-after-pause", what, {"scenario_meta": m})
+    res.coverage["burst_family"] = metas
+
+
 def economy_family(res, tier):
     """whole Programs, every output option (plain, WithANSICompressor, alt screen): a view of 9 lines of which one changes per
     update costs about that line, an unchanged view costs nothing"""
@@ -128,6 +169,7 @@ def economy_family(res, tier):
 
 def run(res, tier, seed):
     framerate_family(res, tier)
+    burst_family(res, tier)
     economy_family(res, tier)
     rnd = random.Random(seed * 9001 + 19)
     cases = gen(rnd, tier)
